@@ -144,6 +144,9 @@ def retry_cfg(draw, p):
         )
     if chance(draw, 0.93 if not cfg.get("strategies") else 0.7, "s11"):
         cfg["default"] = draw(strategy_spec(hostile, styles, max_ticks))
+    at = p.get("attempt_timeout", 0)
+    if at and chance(draw, at, "attempt-timeout"):
+        cfg["attempt_timeout"] = 3600.0  # never fires (virtual time); selects the thread-pool / wait_for code path
     cfg["result_classifier"] = p.get("results", True) and chance(draw, 0.9, "s12")
     b = p.get("budget", 0.3)
     if b and chance(draw, b, "s13"):
